@@ -153,6 +153,24 @@ pub fn walk(b: &mut Bat, h: &Multiboot2Header, hbase: *const u8, cap: usize) {
 /// As `walk`; with `resume` the same iterator is asked twice more after a controlled panic (a caller that catches
 /// the unwind and goes on): those calls are bound by the same rules.
 pub fn walk_opts(b: &mut Bat, h: &Multiboot2Header, hbase: *const u8, cap: usize, resume: bool) {
+    if resume {
+        // fold-based adapters (an iterator type may override them): what they hand out is bound by the same rules
+        match b.ctx.call("iter.count", || h.iter().count()) {
+            Out::Val(n) => b.recs.push(Rec { name: "iter.count", val: Val::U(n as u64) }),
+            Out::Panic => b.recs.push(Rec { name: "iter.count", val: Val::Panic }),
+        }
+        match b.ctx.call("iter.last", || h.iter().last()) {
+            Out::Val(Some(t)) => {
+                b.recs.push(Rec { name: "iter.last", val: Val::S { off: rel(t, hbase), len: std::mem::size_of_val(t), hash: 0 } });
+                let save = b.base;
+                b.base = hbase;
+                b.s("iter.last.payload", || Ok(t.payload()));
+                b.base = save;
+            }
+            Out::Val(None) => b.recs.push(Rec { name: "iter.last", val: Val::E(0) }),
+            Out::Panic => b.recs.push(Rec { name: "iter.last", val: Val::Panic }),
+        }
+    }
     if let Out::Val(mut it) = b.ctx.call("iter", || h.iter()) {
         b.dbg("Debug(iter)", &it);
         for _ in 0..cap {
